@@ -4,23 +4,30 @@ META = {
     "title": "Skein-256/512/1024 digests conform to Skein 1.3 for every message and output length",
     "design_ref": "6/C05 (+ Skein part of 6/C17, lazy-buffer lemmas of 6/C08)",
     "technique": "Coq proof: characterisation of BlockBuffer::input_lazy (emitted blocks + buffered tail reconstruct the input, input_lazy_app), schedule lemma for the blocks/byte counts/flags fed to Threefish, induction over the block sequence with the tweak position invariant, C09 (model cipher = spec cipher); KAT-anchored spec; differential correspondence impl = model = spec for 18 output sizes x 3 state sizes, two update calls per message, states entered through hook H2",
-    "level_text": "Machine-checked theorems in Props/C05.v: C05_ubi_block_eq_spec (process_block = one UBI step with the specified tweak), C05_skein_lazy_schedule (the blocks, byte counts and first/final flags fed to Threefish for any message fed in any number of update calls are the specified ones), C05_skein{256,512,1024}_eq_spec (for every byte string shorter than 2^64 bytes, every partition into update calls, every output size 1 <= n < 2^61 bytes, both build profiles and both unroll settings the model digest is Ok and equals the Skein 1.3 value), C05_skein_pos_exact (C17: the tweak position equals the number of bytes processed, no wrap and no overflow panic below 2^64), C05_input_lazy_app / C05_input_lazy_reconstructs (block-buffer). The spec reproduces the three published empty-message vectors and the 18 vectors of the crate's test suite (C05_kats). Implementation = model = spec is checked on generated cases in debug and release profiles.",
+    "level_text": "Machine-checked theorems in Props/C05.v, all closed under the global context: C05_ubi_block_eq_spec (process_block = one UBI step E(x,T,block) xor block with the specified 128-bit tweak and FIRST cleared while the position stays below 2^64; at or beyond 2^64 the debug build panics and the release build wraps), C05_skein_lazy_schedule (from any entered state, for any message fed in any number of update calls, the blocks, byte counts and first/final flags fed to Threefish by update+finalize are the specified ones: (len-1)/nb full blocks, then the held-back 1..nb bytes zero padded with FINAL; a single zero block with count 0 for the empty message; the result is UBI of the specification), C05_skein_default_eq_iv (Default = configuration UBI carrying 8N), C05_skein_output_eq_spec (output loop = counter-mode Output truncated to N bytes), C05_skein256_eq_spec / C05_skein512_eq_spec / C05_skein1024_eq_spec (for every byte string shorter than 2^64 bytes, every partition into update calls, every output size 1 <= n with 8n < 2^64, both build profiles and both unroll settings the model digest is Ok and equals the Skein 1.3 value; uses C09 for the cipher), C05_skein_digest_eq_spec (one-shot digest), C05_input_lazy_app / C05_input_lazy_reconstructs (block-buffer). Props/C17_skein.v: C17_skein_pos_exact (tweak position = bytes given to Threefish, position + buffered = bytes absorbed, no wrap and no overflow panic while off + total < 2^64), C17_skein_from_state_eq_spec (digest from an entered state = Output of UBI continued at that position). The spec reproduces the three published empty-message vectors and the 18 vectors of the crate's test suite (C05_kats); computed examples beside the implications (C05_examples, C17_skein_examples incl. the overflow at 2^64). Implementation = model = spec is checked on generated cases in debug and release profiles.",
     "level_note": "Trusted: Coq kernel+VM; spec transcription of Skein 1.3 UBI/config/output (anchored by 21 vectors) and of Threefish (C09); hand-written model of lib.rs and of block-buffer 0.9 input_lazy/pad_with tied to the code on generated cases; harness; hook H2 (verif_set_state) for entered states. No axioms.",
-    "rule": "cases = (state size, output bytes N in {1,7,8,20,31,32,33,48,63,64,65,100,127,128,129,200,256,300}, message, split point of the two update calls, optional entered state (chaining value, t.0, t.1, buffered bytes)); streams: every message length 0..3*block+1 per state size, per (size,N) empty/exact multiple/+1/random, sparse longer messages, hook states at position 0, just below 2^32, 2^40, 2^63 and just below 2^64 (overflow: debug panics, release wraps); contents random/zero/ones/counting; distinct = distinct (size,N,state,message,split); every case runs configuration, message and output stages so none is trivial; implementation outcome, (t.0,t.1,pos) after the updates and digest are compared with the model, and with the spec whenever the total position stays below 2^64, inside coqc",
-    "assumptions": ["little-endian host", "usize is 64 bits (byte_count_add as u64 is the identity)",
-                    "output size below 2^61 bytes (the 64-bit output-length field of the configuration block)"],
+    "rule": "cases = (state size, output bytes N in {1,7,8,20,31,32,33,48,63,64,65,100,127,128,129,200,256,300}, message, split point of the two update calls, optional entered state (chaining value, t.0, t.1, buffered bytes)); streams: residues (every message length 0..block+1, then block boundaries and every 4th length up to 3*block+1 in the quick tier / every length 0..3*block+1 three times in the thorough tier, per state size), per_output_size (per (size,N): empty/exact multiple/+1/random), long (sparse longer messages), hook (entered states at position 0 with and without FIRST, just below 2^32, 2^32, 2^40, 2^63 and just below 2^64 where t.0 overflows: debug panics, release wraps; buffered 0/1/block-1/block bytes; tails around the block boundaries), smoke (complete runs added to configurations that otherwise only see entered states); contents random/zero/ones/counting/structured; configurations: quick = debug all streams, release hook, release+no_unroll smoke; thorough = debug all, release all, debug+no_unroll all, release+no_unroll hook; distinct = distinct (size,N,state,message,split); every case runs configuration, message and output stages so none is trivial; implementation outcome (ok/panic), (t.0,t.1,buffer position) after the updates and digest are compared with the model, and with the spec whenever the total position stays below 2^64, inside coqc",
+    "assumptions": ["little-endian host", "usize is 64 bits (byte_count_add as u64 and i as u64 are identities)",
+                    "output size N with 8N < 2^64 (the 64-bit output-bits field of the configuration block, N::to_u64() * 8)",
+                    "message shorter than 2^64 bytes (the u64 position word state.t.0; Skein 1.3 allows 2^96-1: beyond 2^64 debug builds panic and release builds wrap, theorem C17_skein_beyond_2_64, reproduced through hook H2)"],
 }
 
 
 def run(ctx):
-    vlib.standard_proof_stage(ctx)
+    vlib.standard_proof_stage(ctx, extra_props=("C17_skein",))
     tier = "quick" if ctx.quick else "thorough"
-    plans = [("debug", "all"), ("release", "hook" if ctx.quick else "all")]
-    for profile, streams in plans:
-        binary, log = vlib.cargo_build(profile=profile, bin_name="h_skein")
+    # (profile, cargo features of the harness, streams)
+    if ctx.quick:
+        plans = [("debug", (), "all"), ("release", (), "hook"), ("release", ("no_unroll",), "smoke")]
+    else:
+        plans = [("debug", (), "all"), ("release", (), "all"),
+                 ("debug", ("no_unroll",), "all"), ("release", ("no_unroll",), "hook")]
+    for profile, feats, streams in plans:
+        binary, log = vlib.cargo_build(features=feats, profile=profile, bin_name="h_skein")
         if binary is None:
-            raise vlib.CheckError("harness build failed (h_skein %s): %s" % (profile, log[-2000:]))
+            raise vlib.CheckError("harness build failed (h_skein %s %s): %s" % (profile, feats, log[-2000:]))
+        label = "skein/%s/%s/%s" % (profile, "no_unroll" if feats else "unrolled", streams)
         s = vlib.correspondence(ctx, binary, "skein",
-                                ["--tier", tier, "--streams", streams, "--runner", "run_c05"],
-                                "skein/%s/%s" % (profile, streams))
-        vlib.decide_absolute(ctx, s, explain="explain_c05", theorem="C05_skein256_eq_spec / C05_skein512_eq_spec / C05_skein1024_eq_spec")
+                                ["--tier", tier, "--streams", streams, "--runner", "run_c05"], label)
+        vlib.decide_absolute(ctx, s, explain="explain_c05",
+                             theorem="C05_skein256_eq_spec / C05_skein512_eq_spec / C05_skein1024_eq_spec (entered states: C17_skein_from_state_eq_spec, C17_skein_pos_exact)")
